@@ -32,6 +32,10 @@ NoMixT(t, msgs, mode, vals) == \A k \in 1..Len(t.rows) : RTrim(t.rows[k]) = <<>>
 \* the last thing on the screen is a frame with the end message, and nothing has been drawn behind it: the row the
 \* cursor is left on (after the line end that closes the indicator's line) is blank and lies below that frame
 \* r0 = the row the cursor was on when THIS run began: the frame must have been drawn by this run, not be a leftover
-EndFrameT(t, end, mode, r0, vals) == LET s == Screen(t) IN /\ s # <<>> /\ IsOneFrame(s[Len(s)], {end}, mode, vals) /\ Len(s) >= r0
+\* (an empty end message is an end message: the decorated frame then is blank, value, blank; on a not decorated output its
+\* frame is a blank line - nothing to be seen, nothing claimed)
+EndFrameT(t, end, mode, r0, vals) ==
+  \/ mode = "plain" /\ end = <<>>
+  \/ LET s == Screen(t) IN /\ s # <<>> /\ IsOneFrame(s[Len(s)], {end}, mode, vals) /\ Len(s) >= r0
                                            /\ t.r > Len(s) /\ RTrim(t.rows[t.r]) = <<>>
 =============================================================================
